@@ -10,8 +10,8 @@ The scratch worktree is based on the pinned snapshot commit (without later fix: 
 import json, os, re, shutil, subprocess, sys
 
 ID, MK = sys.argv[1], sys.argv[2]
-WT = "/tmp/seed/%s" % ID
-SRC = "/tmp/seedout/%s/%s" % (ID, MK)
+WT = os.environ.get("SEED_WT_ROOT", "/tmp/seed") + "/%s" % ID
+SRC = os.environ.get("SEED_OUT_ROOT", "/tmp/seedout") + "/%s/%s" % (ID, MK)
 DST = "/verif/seeded/%s-%s" % (ID, MK)
 env = dict(os.environ, GOFLAGS="-mod=mod", GOPROXY="off", GOSUMDB="off", GOTOOLCHAIN="local")
 
@@ -68,7 +68,7 @@ for f in ("patch.diff", "patch_rebased.diff", "demo_test.go", "notes.md"):
 notes = open(os.path.join(SRC, "notes.md")).read() if os.path.exists(os.path.join(SRC, "notes.md")) else ""
 meta = dict(property=ID, id="%s-%s" % (ID, MK), breaks=ID,
             needs_to_manifest="see notes.md (written by the seeding sub-agent)",
-            confirmed_by="selftest/confirm_seed.py in scratch worktree /tmp/seed/%s @ pinned snapshot" % ID,
+            confirmed_by="selftest/confirm_seed.py in scratch worktree %s @ %s" % (WT, sh("git rev-parse --short HEAD")[1].strip()),
             ran=["go test -run ^%s$ ./%s/ on pristine tree -> pass" % (test, pkgdir),
                  "git apply patch.diff; go test -run ^%s$ ./%s/ -> FAIL" % (test, pkgdir),
                  "go build ./... && go test -vet=off -count=1 ./... with change -> pass"],
